@@ -55,10 +55,50 @@ def run_one(args):
     cmds = (('model', [common.MODEL, 'seq', shard]), ('spec', [common.MODEL, 'spec', shard]), ('impl', [seqrun, shard])) if mode == 'seq' else \
            (('model', [common.MODEL, 'aseq', shard]), ('impl', [seqrun, shard]))
     for name, cmd in cmds:
+        if name == 'impl':
+            outs[name] = run_impl_resilient(cmd[0], shard)
+            continue
         p = subprocess.run(cmd, stdout=subprocess.PIPE, stderr=subprocess.PIPE, text=True, errors='replace')
         outs[name] = (p.returncode, p.stdout, p.stderr[-2000:])
     if 'spec' not in outs: outs['spec'] = (0, None, '')
     return shard, outs
+
+MISSING = '<missing: implementation output ends here (crash / abort)>'
+
+def run_impl_resilient(binary, shard):
+    """Runs the implementation on a shard. A history that leaves the contract can put the real crate into a state in
+    which a debug precondition check aborts the process: the run is resumed with the next history and the missing lines
+    of the aborted one are padded (they count as a divergence only if the history was respecting the contract)."""
+    hs = parse_hist(shard)
+    out_lines = []
+    start = 0
+    err = ''
+    rc_all = 0
+    while start < len(hs):
+        path = shard if start == 0 else shard + f'.resume{start}'
+        if start > 0:
+            with open(path, 'w') as f:
+                for h, c, ops in hs[start:]:
+                    f.write(h + '\n' + (c or '') + '\n' + '\n'.join(ops) + '\n')
+        p = subprocess.run([binary, path], stdout=subprocess.PIPE, stderr=subprocess.PIPE, text=True, errors='replace')
+        lines = p.stdout.split('\n')
+        if lines and lines[-1] == '': lines.pop()
+        if p.returncode == 0:
+            out_lines += lines; break
+        rc_all = p.returncode; err = p.stderr[-1500:]
+        # how many histories are complete? a complete history has header + init + ops + live lines
+        i = 0; k = start
+        while k < len(hs):
+            need = 1 + 1 + len(hs[k][2]) + 1 + (1 if 'vmem=1' in (hs[k][1] or '') else 0)
+            if i + need <= len(lines) and (k + 1 >= len(hs) or (i + need < len(lines) and lines[i + need].startswith('#')) or i + need == len(lines)):
+                i += need; k += 1
+            else: break
+        # history k crashed: keep what it printed, pad the rest
+        need = 1 + 1 + len(hs[k][2]) + 1 + (1 if 'vmem=1' in (hs[k][1] or '') else 0) if k < len(hs) else 0
+        got = lines[i:]
+        out_lines += lines[:i] + got + [MISSING] * max(0, need - len(got))
+        start = k + 1
+    return (rc_all, '\n'.join(out_lines) + '\n', err)
 
 def parse_hist(path):
     """-> list of (header, cfg, ops)"""
@@ -152,6 +192,8 @@ def compare_shard(suite, shard, outs, stats, divs, maxdiv=200, collect=None, sat
                         stats.safe_breaks.setdefault(key, []).append((header, cfg, ops[:idx + 1]))
                 was_ok = s.startswith('+')
             prev = CA_RE.sub('', m.split(' | ev=')[0]).split(' | ', 1)[-1]
+            if i.startswith('<missing') and not s.startswith('+'):
+                continue       # the process aborted after the history had left the contract: nothing to compare
             if m != i and not broken:
                 broken = True
                 if len(divs) < maxdiv: divs.append(Div(suite, header, cfg, ops, idx, 'tie', m, i))
@@ -167,7 +209,7 @@ def compare_shard(suite, shard, outs, stats, divs, maxdiv=200, collect=None, sat
         # live line: model and impl only
         m, mi = nxt(ml, mi); i, ii = nxt(il, ii)
         got.append(i)
-        if not broken and m != i and len(divs) < maxdiv:
+        if not broken and m != i and not (i.startswith('<missing') and not was_ok) and len(divs) < maxdiv:
             divs.append(Div(suite, header, cfg, ops, len(ops), 'tie', m, i))
         if mi < len(ml) and ml[mi].startswith('maps='):
             # vmem: mappings of the buffer's shared object that remain after it was released
